@@ -542,7 +542,17 @@ def r6(ctx):
                 ctx.check(P, rule, "%s stores the computed hash" % nm, term_has_call(h, HASH_DATA if f is fb else HASH_PARENT) is not None, "hash from Hash::*", "%s stores hash %s" % (nm, term_str(h)[:80]))
 
 
-RULES = [r1, r1b, r2, r3, r3b, r3c, r4, r5, r6, r6b]
+def r7(ctx):
+    """'after any accepted proof every held block still equals the writer's': a verified block is
+    written where the tree says it lies — the short cut 'at the current end of the data' is taken
+    exactly for the block whose index equals the current length (same clause as C03.R2; a block
+    beyond the current length, received together with an upgrade, would otherwise be marked held
+    with its bytes somewhere else)"""
+    from . import c03
+    c03.r2b(ctx, P, "C04.R7")
+
+
+RULES = [r1, r1b, r2, r3, r3b, r3c, r4, r5, r6, r6b, r7]
 
 EXPLANATION = ("C04 (forged proofs never change a replica): decides the gate chain as dominance facts — fork and commitable gates and a ?-checked "
                "verify_proof dominate every storage/oplog/bitfield/tree/header/event effect of verify_and_apply_proof and the applied changeset is the verified one (R1); "
@@ -550,7 +560,7 @@ EXPLANATION = ("C04 (forged proofs never change a replica): decides the gate cha
                "the changeset is released only with no instruction pending, and NodeQueue::shift — the only place that ties a proof node to a tree position — hands a node out only under node.index == index (R3); every Ok of verify_upgrade/verify_and_set_signature is dominated by a ?-checked "
                "signature verification over signable(hash(roots), length, fork) with no root appended afterwards (R4); crypto::verify returns Ok only on "
                "verify(..).is_ok() and Err on a missing signature (R5); verify_tree recomputes the leaf from the received value and every parent from the "
-               "running root and the shifted sibling, and normalize_data hands it the block section whenever the proof has one — a hash section stands in only without a block (R6).")
+               "running root and the shifted sibling, and normalize_data hands it the block section whenever the proof has one — a hash section stands in only without a block (R6). R7 (= C03.R2): a verified block is written at the current end of the data exactly when its index equals the current length.")
 NOT_DECIDED = ("collision resistance / signature soundness of the libraries; flat-tree index arithmetic selecting which nodes are combined; that a refused "
                "proof leaves every observation unchanged beyond 'no effect site is reachable'; completion of honest replication afterwards.")
 ASSUMPTIONS = ["ed25519-dalek and blake2 are correct", "flat_tree iterator arithmetic is correct"]
